@@ -714,7 +714,7 @@ class C19(Prop):
         return {'LokiModel/Generated/C19Tables.lean': '\n'.join(s)}
 
     def gen(self, rng, tier):
-        n = {'quick': 60, 'thorough': 350, 'search': 120}.get(tier, 60)
+        n = {'quick': 40, 'thorough': 350, 'search': 120}.get(tier, 40)
         for i in range(n):
             prog = gen_prog(rng, FEATS)
             lname = list(LAYOUTS)[i % len(LAYOUTS)]
